@@ -528,3 +528,95 @@ PROPS["C39"] = {
     "assumptions": ["harness futures that can never finish because the scripted peer does not answer (cache-priming proxy builds) are cancelled before the verdict; they hold connection clones of their own",
                     "EOF is observed as the drop of both scripted socket halves"],
 }
+
+
+def gen_plan(engine, quick_count, thorough_count, thorough_variants, feats=("",), thorough_feats=None, thorough_layers=("release",)):
+    """Plans for the generated-program engines: the quick tier builds one program set from VERIF_SEED, the thorough tier
+    several larger ones (each is a separate generate + build + run step), plus the extra layers on the first."""
+    def plan(tier):
+        steps = []
+        if tier == "quick":
+            for f in feats:
+                steps.append({"engine": engine, "features": f, "layer": "monitor", "gen": {"count": quick_count, "variant": 0}})
+            return steps
+        for f in (thorough_feats or feats):
+            for v in range(thorough_variants):
+                steps.append({"engine": engine, "features": f, "layer": "monitor", "gen": {"count": thorough_count, "variant": 1 + v}, "scale": 0.5})
+        for layer in thorough_layers:
+            st = {"engine": engine, "features": feats[0], "layer": layer, "gen": {"count": quick_count, "variant": 0}}
+            if layer in ("asan", "miri"):
+                st["scale"] = 0.004 if layer == "miri" else 0.3
+                st["args"] = ["--tier", "quick"]
+            else:
+                st["scale"] = 0.5
+            steps.append(st)
+        return steps
+    return plan
+
+
+PROPS["C09"] = {
+    "level": "exploration",
+    "plan": gen_plan("zt", 40, 160, 3, feats=("",), thorough_feats=("", "option-as-array"), thorough_layers=("release", "miri")),
+    "rule": ("GENERATED type definitions (engines/gen/gen_types.py from VERIF_SEED: 40 per program in quick, 3+3 programs of 160 in thorough "
+             "incl. an option-as-array build): named / tuple / newtype structs, unit enums (plain, #[repr] + serde_repr, string form), "
+             "data-carrying enums (newtype, tuple and struct variants), dictionary structs (SerializeDict/DeserializeDict and "
+             "as_value, Option fields, rename_all), fields drawn from std leaves (ints, f64, String, char, usize/isize, Duration, "
+             "object paths), Vec/VecDeque/BTreeSet/HashMap/BTreeMap/tuples/arrays/Box/Arc and earlier generated types; every type "
+             "is exercised alone and inside Vec<T>, (u8,T,u8), BTreeMap<String,T> and (unit enums) as a dict key: declared SIGNATURE "
+             "== the generator's, the serialized bytes (LE, BE, 5 offsets) decode under the reference decoder with that signature "
+             "to the generator's projection of the value, and the value round-trips; distinct = distinct (type expression, signature)"),
+    "gates": {"quick": {"evaluations": 50000, "distinct": 120, "types_exercised": 150, "class:newtype": 1, "class:struct-variant-enum-in-array": 1,
+                        "class:dict-struct-derive": 1, "class:repr-enum-as-dict-key": 1},
+              "thorough": {"evaluations": 1000000, "distinct": 2000}},
+    "assumptions": ["expected signatures and value projections follow serde's data model and the derive's documentation (newtype = inner type, unit enum = u32 index unless repr/string form, data enum = (u payload), dict struct = a{sv} with absent None fields)",
+                    "GVariant is not exercised here (the property speaks about D-Bus signatures; C02/C05 cover the GVariant codec)"],
+}
+
+PROPS["C26"] = {
+    "level": "exploration",
+    "plan": gen_plan("zg", 12, 40, 3, thorough_layers=("release", "asan")),
+    "rule": ("GENERATED interfaces (engines/gen/gen_ifaces.py from VERIF_SEED: 12 per program in quick, 3 programs of 40 in thorough; methods with "
+             "0..4 inputs / 0..3 outputs over basic, array, dict, tuple, derived-struct and variant types, sync/async, &self/&mut self, "
+             "infallible / fdo::Result / custom DBusError, header/connection/object-server parameters sprinkled in, spawn on/off) are "
+             "registered (some twice) at 4 paths; the raw peer sends 6..25 calls per case: correct, unknown object / interface / "
+             "member, dropped / added / retyped / swapped arguments, without INTERFACE field, 1/7 with the no-reply flag, in bursts "
+             "and read chunks; handler invocation log == exactly the calls that must be served (digest of the decoded arguments), "
+             "exactly one reply (none with no-reply), body == the model's values with the declared output types, handler errors "
+             "relayed, standard error names for the four refusal kinds; distinct = distinct (call list, schedule)"),
+    "gates": {"quick": {"evaluations": 1400, "distinct": 1200, "calls_checked": 15000, "class:correct": 6000, "class:unknown-object": 1000, "class:unknown-interface": 1000,
+                        "class:unknown-method": 800, "class:no-reply-flag": 1500, "class:no-interface-header": 800, "generated_methods": 20},
+              "thorough": {"evaluations": 80000, "distinct": 60000}},
+    "assumptions": ["handlers are pure functions of their arguments (engines/zg/src/support.rs) mirrored on reference values (model.rs); the invocation log is written by the handlers themselves",
+                    "calls without an INTERFACE field: the specification allows an error or any matching method, so only 'exactly one reply, and a return must be the right result' is judged"],
+}
+
+PROPS["C27"] = {
+    "level": "exploration",
+    "plan": gen_plan("zg", 12, 40, 3, thorough_layers=("release",)),
+    "rule": ("the same GENERATED interfaces (with signals and properties of all access / emits-changed modes, and doc comments drawn from a pool of "
+             "XML-hostile text: <, &, quotes, --, -->, ]]>, entity look-alikes, non-ASCII, blank lines) registered on random trees over "
+             "4 paths; Introspect at EVERY node: the document must pass an independent strict XML well-formedness checker, be read by "
+             "zbus_xml, list exactly the node's interfaces (+ Peer/Introspectable/Properties) and child nodes, and declare for every "
+             "generated method (in/out argument types in order), signal and property (type, access, EmitsChangedSignal annotation) "
+             "what the generator defined - the same metadata C26/C28 compare the wire with; distinct = distinct (tree, schedule)"),
+    "gates": {"quick": {"evaluations": 650, "distinct": 500, "documents_checked": 1500, "interfaces_compared": 1500, "methods_compared": 4000, "properties_compared": 2000, "signals_compared": 500},
+              "thorough": {"evaluations": 25000, "distinct": 15000}},
+    "assumptions": ["methods whose single result is a structure type are not generated (the property excludes them)",
+                    "the strict XML checker is engines/zg/src/xmlcheck.rs (written from the XML recommendation; unit-tested)"],
+}
+
+PROPS["C28"] = {
+    "level": "exploration",
+    "plan": gen_plan("zg", 12, 40, 3, thorough_layers=("release",)),
+    "rule": ("the same GENERATED interfaces' properties (0..6 each: read / write / readwrite, emits true / invalidates / false / const, sync and "
+             "async getters, fallible setters, types over the palette): histories of 20..60 (50..500 thorough) Get / GetAll / Set "
+             "operations from the raw peer incl. unknown property / interface, read-only and write-only targets, wrongly typed and "
+             "setter-refused values; each reply and the PropertiesChanged signals seen up to the next quiescent point are compared with "
+             "a property-store model: values, exactly the readable set in GetAll, errors leave the store unchanged, exactly one "
+             "signal with the new value / the invalidated name per successful Set of an emitting property and none otherwise; "
+             "distinct = distinct (history, schedule)"),
+    "gates": {"quick": {"evaluations": 1100, "distinct": 700, "operations_checked": 25000, "class:get": 4000, "class:get-all": 3000, "class:set-ok": 2000,
+                        "class:set-with-signal": 800, "class:expected-error": 5000, "generated_properties": 15},
+              "thorough": {"evaluations": 35000, "distinct": 25000}},
+    "assumptions": ["whether PropertiesChanged precedes or follows the method return is not judged", "any error reply counts as a rejection (the property does not name the errors)"],
+}
